@@ -556,7 +556,9 @@ def run(pid, ctx, seed):
     where = f"{len(funcs)} functions of {pid}"
     valid = len(mut) - len(invalid)
     rate = (len(killed) / valid) if valid else 1.0
-    obs.append(Ob("selftest.mutants", "selftest", where, "ok" if rate >= 0.5 and not crashed else "inconclusive",
+    # (a crash of the checker on a sampled variant means that variant would end as ANALYSIS-ERROR (exit 2), never as a silent
+    #  pass; it is recorded in the evidence but does not decide the unchanged tree)
+    obs.append(Ob("selftest.mutants", "selftest", where, "ok" if rate >= 0.5 else "inconclusive",
                   f"{len(killed)}/{valid} single-edit mutants of the analysed functions turn an obligation red "
                   f"({total_sites} mutation sites, {len(mut)} sampled with seed {seed}); survivors are listed in the evidence"
                   + (f"; checker crashed on {len(crashed)} variants" if crashed else "")))
